@@ -56,12 +56,16 @@ func c15Alphabet() []probe.Op {
 		{Op: "overrideparam", Name: "p1", Deps: []probe.DepSpec{{Dep: "value", T: "int", V: "77"}}},
 		{Op: "overridesvc", Name: "s0", Ctor: "fixt/pb.New", Deps: []probe.DepSpec{{Dep: "value", T: "string", V: "ovs0"}, {Dep: "param", Name: "p0"}}, Tags: []probe.TagSpec{{Name: "t", Prio: 0}}},
 		{Op: "overridesvc", Name: "s1", Ctor: "fixt/pa.NewVal", Deps: []probe.DepSpec{{Dep: "service", Name: "s0"}}},
+		// the overriding definition may be contextual: dependants without a scope of their own become contextual with it,
+		// which shows when they are fetched in two contexts
+		{Op: "overridesvc", Name: "s0", Ctor: "fixt/pa.New", Scope: "contextual", Deps: []probe.DepSpec{{Dep: "value", T: "string", V: "ctx-ov"}}},
+		{Op: "getctx", Name: "s1", Ctx: 1}, {Op: "getctx", Name: "s1", Ctx: 2},
 	}
 }
 
 func checkC15(c *Ctx) error {
 	maxLen := c.Pick(3, 5)
-	c.Rule = fmt.Sprintf("(1) histories: every sequence of length <=%d over {GetParam p0/p1, Get s0/s1, OverrideParam p0/p1, OverrideService s0/s1} on eight small configurations (the real service overriding a todo service carries a tag) (param->param->service->service chains with todo parameters/services at each position, tags, a decorator, explicit scopes), plus seeded longer histories; each history runs on a fresh generated container and is compared with the reference container; results that touch a cache entry filled before an override are recorded but not judged (the statement only speaks about dependants not yet constructed); function invocation counters are read right after construction (laziness) and at the end; (2) every subset of definitions marked todo is run through the real binary and must be accepted; (3) seeded configurations in which 1-3 services are switched off with `todo: true` while keeping a definition full of dangling, self- and neighbour references must be accepted. distinct = distinct (configuration, history); non-trivial = history contains >=1 override or touches a todo definition", maxLen)
+	c.Rule = fmt.Sprintf("(1) histories: every sequence of length <=%d over {GetParam p0/p1, Get s0/s1, GetInContext s1 in two contexts, OverrideParam p0/p1, OverrideService s0 (plain, tagged, contextual) / s1} on eight small configurations (the real service overriding a todo service carries a tag) (param->param->service->service chains with todo parameters/services at each position, tags, a decorator, explicit scopes), plus seeded longer histories; each history runs on a fresh generated container and is compared with the reference container; results that touch a cache entry filled before an override are recorded but not judged (the statement only speaks about dependants not yet constructed); function invocation counters are read right after construction (laziness) and at the end; (2) every subset of definitions marked todo is run through the real binary and must be accepted; (3) seeded configurations in which 1-3 services are switched off with `todo: true` while keeping a definition full of dangling, self- and neighbour references must be accepted. distinct = distinct (configuration, history); non-trivial = history contains >=1 override or touches a todo definition", maxLen)
 	c.Assumptions = []string{"reference container engine/ref with caches", "OverrideParam/OverrideService definitions are built by the probe from fixture constructors"}
 	lab, err := probe.NewLab(c.W)
 	if err != nil {
@@ -171,7 +175,7 @@ func checkC15(c *Ctx) error {
 				continue
 			}
 			if op.Op != "counts" {
-				seg = append(seg, op.Op+" "+op.Name)
+				seg = append(seg, fmt.Sprintf("%s %s %s %d", op.Op, op.Name, op.Scope, op.Ctx))
 			}
 		}
 		flush()
